@@ -1,6 +1,7 @@
 //! `vh` — the Rust side of the correspondence check.  Each sub-command reads a line protocol on
 //! stdin, runs the *real* calloop built from /repo's working tree (with `--cfg calloop_verif`),
 //! and prints one observation line per effect on stdout.
+mod chansched;
 mod core;
 mod pingsched;
 mod sched;
@@ -13,6 +14,7 @@ fn main() {
     let code = match mode {
         "tok" => tok::run(),
         "pingsched" => pingsched::run(),
+        "chansched" => chansched::run(),
         "core" => core::run(&args[2..]),
         "transient" => transient::run(),
         _ => {
